@@ -52,6 +52,21 @@ def confirm(ids):
 
 
 def run_checks(prop, ids):
+    import shutil
+    evp = os.path.join(VERIF, 'evidence', prop + '.json')
+    bak = evp + '.bak'
+    if os.path.exists(evp):
+        shutil.copy(evp, bak)
+    try:
+        _run_checks(prop, ids)
+    finally:
+        # evidence written while a seeded change was applied must never stay in the tree
+        if os.path.exists(bak):
+            shutil.move(bak, evp)
+        sh(f'{PY} {VERIF}/harness/mk.py --gen >/dev/null 2>&1')
+
+
+def _run_checks(prop, ids):
     for sid in ids:
         d = os.path.join(SEEDED, sid)
         rc, out = sh(f'git -C /repo apply {d}/patch.diff')
